@@ -16,10 +16,39 @@ def f64(h):
     return struct.unpack(">d", bytes.fromhex(h))[0]
 
 
+def unused_bits(su):
+    """per mode: for every channel the number of leading zero bits that make its floor 'unused' (floor 1: the nonzero flag;
+    floor 0: the amplitude field)"""
+    floors, maps, modes = [], [], []
+    cur = None
+    ch = su["channels"]
+    for v, n, label in su["trace"].f:
+        if label == "floor.type":
+            floors.append(1 if v == 1 else None)
+        elif label == "f0.ampbits":
+            floors[-1] = max(v, 0)
+        elif label == "map.type":
+            cur = {"mux": [], "floor": []}
+            maps.append(cur)
+        elif label == "map.chmux":
+            cur["mux"].append(v)
+        elif label == "map.floor":
+            cur["floor"].append(v)
+        elif label == "mode.map":
+            modes.append(v)
+    out = []
+    for m in modes:
+        mp = maps[m] if m < len(maps) else {"mux": [], "floor": [0]}
+        mux = mp["mux"] if mp["mux"] else [0] * ch
+        out.append([floors[mp["floor"][mux[c] if c < len(mux) else 0]] if mp["floor"] else 1 for c in range(ch)])
+    return out
+
+
 def gen_case(rng, i, su, npk):
     ops = ["case %d" % i, "new", "hdr 1 %s" % vlib.hexs(G.ident(su["channels"], rng.choice([8000, 44100, 96000]), su["b0"], su["b1"])),
            "hdr 0 %s" % vlib.hexs(G.comment()), "hdr 0 %s" % vlib.hexs(su["trace"].pack()), "init"]
     flags = su["flags"]
+    ubits = unused_bits(su)
     mb = G.ilog(len(flags) - 1)
     modes = [rng.randrange(len(flags)) for _ in range(npk + 1)]
     size = 1500 * su["channels"] * max(1, (1 << su["b1"]) // 256)
@@ -35,8 +64,14 @@ def gen_case(rng, i, su, npk):
             bits |= (pf | (nf << 1)) << nb
             nb += 2
         body = bytearray(rng.getrandbits(8) for _ in range(min(size, 60000)))
-        head = (bits | (rng.getrandbits(64) << nb)).to_bytes(12, "little")
-        body[:8] = head[:8]
+        # a run of zero bits after the header: the first channels' floors come out "unused" (floor 1: one bit, floor 0: the amplitude
+        # bits), so that patterns such as "only the last channel has a floor" occur — what the coupling steps do with them is part of the format
+        ub = ubits[m] if m < len(ubits) else []
+        j = rng.choice([0, 0] + list(range(len(ub) + 1)))            # the first j channels without a floor
+        z = sum(x or 0 for x in ub[:j])
+        one = 1 if (j < len(ub) and rng.random() < 0.7) else rng.getrandbits(1)   # ... and the next one with (floor 1: flag set; floor 0: low amplitude bit)
+        head = (bits | (one << (nb + z)) | (rng.getrandbits(128) << (nb + z + 1))).to_bytes(32, "little")
+        body[:16] = head[:16]
         body[0] &= 0xfe
         ops.append("pkt %s" % vlib.hexs(bytes(body)))
     return ops
@@ -48,6 +83,7 @@ def features(su):
     tags = set()
     ch = su["channels"]
     res = None
+    maps, restypes = [], []
     for v, n, label in su["trace"].f:
         if label == "book.sync":
             cur = {"sparse": 0, "ordered": 0, "maptype": 0, "seq": 0, "entries": 0}
@@ -66,6 +102,7 @@ def features(su):
             tags.add("floor%d" % v)
         elif label == "res.type":
             res = v
+            restypes.append(v)
             tags.add("res%d" % v)
         elif label == "res.grouping" and res == 2 and (v + 1) % ch != 0:
             tags.add("res2-unaligned")
@@ -79,11 +116,40 @@ def features(su):
             tags.add("submaps>1")
         elif label == "map.cflag" and v:
             tags.add("coupling")
+        elif label == "map.type":
+            cmap = {"mag": [], "ang": [], "res": []}
+            maps.append(cmap)
+        elif label in ("map.mag", "map.ang") and maps:
+            maps[-1][label[4:]].append(v)
+        elif label == "map.res" and maps:
+            maps[-1]["res"].append(v)
+    for mp in maps:
+        # coupling steps that pass a channel on (0,1),(1,2): the order in which the "floor used" flags are spread matters; it is visible with
+        # residue types 0/1, which decode per channel
+        pairs = list(zip(mp["mag"], mp["ang"]))
+
+        def spread(flags, order):
+            f = list(flags)
+            for a, b in order:
+                if a < len(f) and b < len(f) and (f[a] or f[b]):
+                    f[a] = f[b] = 1
+            return f
+        n = min(ch, 8)
+        chain = any(spread([(pat >> c) & 1 for c in range(n)], pairs) != spread([(pat >> c) & 1 for c in range(n)], pairs[::-1])
+                    for pat in range(1 << n))
+        if chain:
+            tags.add("coupling-order-matters")
+            if any(r < len(restypes) and restypes[r] in (0, 1) for r in mp["res"]):
+                tags.add("coupling-order-matters:res01")
     if len(su["flags"]) > 2:
         tags.add("modes>2")
     if 1 in su["flags"] and 0 in su["flags"] and su["b0"] != su["b1"]:
         tags.add("mixed-blocks")
     return tags
+
+
+# features whose effect shows only for particular packet contents are wanted more often
+WANT = {"coupling-order-matters:res01": 14, "coupling-order-matters": 14}
 
 
 def choose(rng, cands, count, per_tag=3):
@@ -92,7 +158,7 @@ def choose(rng, cands, count, per_tag=3):
     need = {}
     for f in feats:
         for t in f:
-            need[t] = per_tag
+            need[t] = WANT.get(t, per_tag)
     chosen, rest = [], list(range(len(cands)))
     while rest and any(v > 0 for v in need.values()) and len(chosen) < count:
         best = max(rest, key=lambda k: sum(1 for t in feats[k] if need.get(t, 0) > 0))
@@ -159,9 +225,9 @@ def run(chk):
     broken = chk.proof_side(theorems)
     quick = chk.tier == "quick"
     combos = [(6, 6), (6, 7), (6, 8), (7, 8), (8, 8), (6, 10), (7, 9), (9, 9)] + ([] if quick else [(8, 11), (6, 12), (11, 11)])
-    cands = V.valid_setups(chk.rng, 160 if quick else 1500, combos=combos, sane=True, channels=[1, 2, 2, 3, 6] + ([] if quick else [8, 17]))
+    cands = V.valid_setups(chk.rng, 320 if quick else 1500, combos=combos, sane=True, channels=[1, 2, 2, 3, 6] + ([] if quick else [8, 17]))
     setups, feathist = choose(chk.rng, cands, 60 if quick else 600)
-    cases = common.load_corpus("C01", 100000) + [gen_case(chk.rng, i, su, 10 if quick else 16) for i, su in enumerate(setups)]
+    cases = common.load_corpus("C01", 100000) + [gen_case(chk.rng, i, su, 16 if quick else 24) for i, su in enumerate(setups)]
     res = vlib.run_pair("c01", cases, timeout=3000)
     crash, ofail = [], []
     tot = {"packets": 0, "complete": 0, "samples": 0, "nonzero": 0, "singular": 0}
